@@ -8,7 +8,7 @@ import DdoModel.Proofs.ParSysTerm
 `ParCrit S` plus one worker-local state per thread and whose steps are the critical sections of
 `parallel.rs`, composed from the very functions of `ParSolver.lean` that the trace validator
 `Engines/Par.lean` replays against recorded runs of the real solver.  This file closes the gap that
-`C03.ParRefinesCover` marked: the theorems below are about `ParCrit` and the `ParSolver.lean` functions
+`Props/C03.lean` marked: the theorems below are about `ParCrit` and the `ParSolver.lean` functions
 themselves, not about the abstract system `ParCover`.
 
 Setting as in `Proofs/SeqInv.lean`: `Phi c` = value of the best completion of `c`, `opt`, `Sol p w`.
